@@ -315,7 +315,12 @@ impl<F: Write + Seek> MiniAllocator<F> {
         // another regular sector to its chain.
         let new_start_sector =
             if mini_stream_start_sector == consts::END_OF_CHAIN {
-                debug_assert_eq!(mini_stream_len, 0);
+                if mini_stream_len != 0 {
+                    invalid_data!(
+                        "Mini stream has length {} but no sector chain",
+                        mini_stream_len
+                    );
+                }
                 self.directory.begin_chain(SectorInit::Zero)?
             } else {
                 if mini_stream_len % sector_len as u64 == 0 {
